@@ -90,6 +90,10 @@ CLAIMED = {
             'Each link of the chain from a resource failure to the exception in the waiting actor is decided on all paths of the code that implements it: every Resource::turn_off override marks the resource off and fails its actions; cancel_actions fails exactly the INITED/STARTED/IGNORED actions of every variable of the constraint; EngineImpl::run handles ended actions after every sub-round and every timer batch, and handle_ended_actions drains failed and done actions of every model and finishes their activities; Comm/Exec/Io/Sleep/Mess finish() answer each live registered simcall exactly once, have a case storing an exception for every failure state the class can be put in, never kill the waiter instead, compute a failure state from a dead host/disk and never overwrite it; HostImpl::turn_off kills every hosted actor, exit() cancels and finishes what the victim waits for, on_exit callbacks get wannadie(); the issuer returned by unregister_first_simcall is null-tested before use in every finish(). Holds for every program, failure date and set of participants.',
             'Dates of the reports and global liveness are not decided; the CpuTi model is a recorded finding; the model-checking branch of ConditionVariableAcquisitionImpl::finish is a listed exception (reason in the checker).',
             'DESIGN.md §3 C10'),
+    'C13': ('who-may-call / who-may-write over every unit that names the dependency members, guard dominance (forward must-dataflow of branch facts), container discipline, CFG path rules on release_dependencies and on every assignment setter',
+            "do_start() has a single call site, in Activity::start, dominated by dependencies_solved() && is_assigned() (and dependencies_solved is dependencies_.empty()); the dependency set is erased only by release_dependencies/remove_successor and filled only by add_successor, release_dependencies is reached only under state == FINISHED in complete() and for detached DONE comms in CommImpl::finish; its loop erases this from each successor's set, starts the successor iff that set became empty and pops it; add/remove_successor update both sides on the same path; the seven S4U setters that write a field read by is_assigned() call start() on every path on which state_ may be STARTING. Together these are the code-shape conditions of 'starts only after all predecessors finished successfully and as soon as assigned', for every DAG and assignment order.",
+            "Start dates and the DAG loaders are not decided; Comm/Io size-0 'cannot start yet' paths are an accepted idiom (the user must call start()); Task (s4u::Task tokens) is a different mechanism and not covered.",
+            'DESIGN.md §3 C13'),
 }
 
 NOT_APPLICABLE = {
